@@ -19,7 +19,7 @@ class Params(dict):
         n_nodes=8, n_inputs=2, n_inits=2, n_outputs=2, p_if=0.15, p_call=0.1, n_functions=1, depth=2, typed=True,
         name_noise=0.0, unsorted=False, p_dup=0.2, p_const=0.15, p_multi=0.1, p_unused=0.1, p_optional=0.05, metadata=False,
         big_init=False, dup_inits=False, unused_function=False, ir_version=10, init_as_input=0.2, lazy_failing_init=False,
-        p_func_subgraph=0.35, annot_noise=0.0,
+        p_func_subgraph=0.35, annot_noise=0.0, name_style=0,
     )  # fmt: skip
 
     def __init__(self, **kw):
@@ -46,6 +46,10 @@ class Builder:
 
     def fresh(self, prefix: str) -> str:
         self.k += 1
+        if self.p["name_style"]:
+            # names shaped like the ones exporters produce (path separators, scope prefixes, dots, output suffixes)
+            k = self.k
+            return [f"/blk{k % 3}/{prefix}{k}", f"{prefix}.{k}", f"/m/layers.{k % 2}/{prefix}_output_{k}", f"{prefix}{k}:0", f"onnx::{prefix}_{k}", f"{prefix}{k}"][k % 6]
         return f"{prefix}{self.k}"
 
     def value(self, name=None, typed=None):
